@@ -19,21 +19,36 @@
 (*   EpochTick         epochTicker (periodic job), guarded to run once per epoch                *)
 (*   Fire(nm, up)      the scheduler starts job nm at its time (prepare-for-epoch, attest,      *)
 (*                     propose, propose-early check, sync prepare, sync message)                *)
-(*   HeadEvent         HandleHeadEvent for the current slot with the roots in force             *)
+(*   HeadEvent         HandleHeadEvent for the current slot with the roots in force: starts the *)
+(*                     refresh goroutines and goes on to the fast track                         *)
 (*   Fetch(t)          a schedule* goroutine obtains duties from the beacon node                *)
 (*   Filter(t)         ... reads the clock and keeps the duties of the epoch not yet passed     *)
 (*   SchedOne(t, d)    ... one ScheduleJob call (each is its own goroutine in the code)         *)
-(*   Cancel(t)         the cancel loop of refresh*DutiesForEpoch                                *)
-(*   Hold(k, on)       environment: the beacon node starts / stops delaying its replies for     *)
-(*                     duty kind k (the reply is computed when asked and delivered later)       *)
-(*   Release(t)        environment: a delayed reply is delivered                                *)
+(*   refresh*DutiesFor*: a process of its own whose steps are the interface calls the code      *)
+(*   makes, each a separate action so that job starts can fall between any two of them:         *)
+(*     DoCheck(t)      JobExists("Prepare for epoch") - attester refresh only                   *)
+(*     DoCancel(t)     one CancelJob / CancelJobIfExists, its result remembered                 *)
+(*     DoAccounts(t)   the validating-accounts lookup (before or after the cancel loop: the     *)
+(*                     property does not care); when both are done the current slot is          *)
+(*                     rescheduled only if ITS cancel succeeded (the job had not started)       *)
+(*     then Fetch / Filter / SchedOne as for every schedule* goroutine                          *)
+(*   fastTrackJobs of a head event is a process too (it runs beside the refreshes the same      *)
+(*   event started): DoFtCheck(t) = JobExists, DoFtRun(t) = RunJobIfExists, attestations then   *)
+(*   sync committee messages                                                                    *)
+(*   Hold(k, on)       environment: replies / calls of kind k are delayed from now on: duty     *)
+(*                     replies of the beacon node ("att", "prop": the reply is computed when    *)
+(*                     asked and delivered later), the accounts provider ("acct"), scheduler    *)
+(*                     calls ("cancel", "sched", "run": the call takes effect when released)    *)
+(*   Block(t)          a call arrives at a delaying interface and waits                         *)
+(*   Release(t) / ReleaseSched(t, d)   environment: a delayed reply / call goes through         *)
 EXTENDS Integers, FiniteSets, Sequences, TLC, ChainTime
 
 CONSTANTS MaxSlot,      \* the clock stops here
           MaxVer,       \* bound on reorgs per boundary
           MaxReorgs,    \* bound on reorgs per behaviour
           MaxCrashes,
-          Gated,        \* TRUE: duty replies may be delayed across other steps (overlapping refreshes)
+          Gates,        \* interfaces whose replies / calls may be delayed across other steps (subset of GateKinds)
+          Interleave,   \* TRUE: the scheduler's timer may start a job between any two steps of the controller's goroutines
           Cfgs,         \* chain / controller configurations to start from
           OraclesFor(_) \* duty oracles to start from, per configuration
 
@@ -47,7 +62,7 @@ VARIABLES cfg,      \* configuration (never changes): [p slots per epoch, d slot
           startedAt,    \* [slot, waited] of the last Start
           fetched,      \* <<kind, key>> |-> version used by the latest fetch
           shown,        \* <<kind, key>> |-> version that a head event has shown to be in force
-          hold,         \* duty kinds whose replies the node currently delays
+          hold,         \* interfaces that currently delay (subset of Gates)
           nReorg, nCrash, nSpur
 
 vars == <<cfg, oracle, now, depVer, up, jobs, tasks, done, seen, latestTick, tickDue, startedAt,
@@ -84,6 +99,7 @@ VerOf(b) == IF b < 0 THEN 0 ELSE depVer[b]
 AttVer(e) == VerOf(e - 1)
 PropVer(e) == VerOf(e)
 SyncVer(p) == VerOf((p - 1) * EP)
+RootOf(b) == <<b, VerOf(b)>>
 KeyVer(k, key) == CASE k = "att" -> AttVer(key) [] k = "prop" -> PropVer(key) [] k = "sync" -> SyncVer(key)
 
 \* what the node returns now
@@ -120,14 +136,25 @@ PrepTime(e) == StartOfEpoch(C, e - 1) + (P * D + D) \div 2
 Due(nm) == jobs[nm].time < SlotStart(now + 1)
 Earliest(nm) == \A o \in DOMAIN jobs : jobs[o].time >= jobs[nm].time
 
-Task(k, key, nc, st) == [k |-> k, key |-> key, nc |-> nc, st |-> st, ver |-> -1, duties |-> {}, cnt |-> 1]
+(* A task is one goroutine of the controller (for the "sched" stage: the goroutines it has     *)
+(* spawned, one per duty).  id: tasks are individuals (two refreshes of one epoch under way at  *)
+(* the same point are two).  pos >= 0: a refresh, pos = index of the next name to cancel (0: the *)
+(* cancel loop has not begun), can = slots whose CancelJob succeeded, acd = accounts obtained.  *)
+(* blk: the call the task is about to make waits at a delaying interface.                       *)
+Task(k, key, nc, st) == [id |-> -1, k |-> k, key |-> key, nc |-> nc, st |-> st, ver |-> -1, duties |-> {},
+                         pos |-> -1, can |-> {}, acd |-> FALSE, blk |-> FALSE]
+RefreshTask(k, key) == [Task(k, key, FALSE, CASE k = "att" -> "check" [] k = "prop" -> "begin" [] k = "sync" -> "cancel")
+                            EXCEPT !.pos = IF k = "sync" THEN 1 ELSE 0]
+IsRefresh(t) == t.pos >= 0
+FreeId(ts) == CHOOSE i \in 0..Cardinality(ts) : \A t \in ts : t.id # i
+RECURSIVE Spawn(_, _)
+Spawn(ts, new) == IF new = <<>> THEN ts ELSE Spawn(ts \cup {[Head(new) EXCEPT !.id = FreeId(ts)]}, Tail(new))
+
+GateKinds == {"att", "prop", "acct", "cancel", "sched", "run"}
 Quiescent == tasks = {}
-\* a delayed reply (a task that was given its duties by the node but has not received them yet) may stay
-Settled == \A t \in tasks : t.st = "held"
-\* identical delayed replies are counted
-AddHeld(ts, t) == IF \E u \in ts : [u EXCEPT !.cnt = 1] = t
-                  THEN {IF [u EXCEPT !.cnt = 1] = t THEN [u EXCEPT !.cnt = @ + 1] ELSE u : u \in ts}
-                  ELSE ts \cup {t}
+\* a delayed reply / call (a goroutine waiting at one of the scripted interfaces) may stay
+Parked(t) == t.st = "held" \/ t.blk \/ (t.st = "sched" /\ \A d \in t.duties : d.blk)
+Settled == \A t \in tasks : Parked(t)
 
 -----------------------------------------------------------------------------
 Init ==
@@ -145,9 +172,9 @@ Init ==
     /\ nReorg = 0 /\ nCrash = 0 /\ nSpur = 0
 
 SyncTasksAtStart(e) ==
-    IF e < cfg.fork THEN {}
-    ELSE {Task("sync", Period(e), TRUE, "fetch")}
-         \cup (IF PeriodStart(Period(e) + 1) - e <= Prep THEN {Task("sync", Period(e) + 1, TRUE, "fetch")} ELSE {})
+    IF e < cfg.fork THEN <<>>
+    ELSE <<Task("sync", Period(e), TRUE, "fetch")>>
+         \o (IF PeriodStart(Period(e) + 1) - e <= Prep THEN <<Task("sync", Period(e) + 1, TRUE, "fetch")>> ELSE <<>>)
 
 (* New(): duties of the rest of this epoch and of the next; only strictly later slots unless we *)
 (* waited for genesis.                                                                          *)
@@ -156,8 +183,8 @@ Start(w) ==
     /\ w => (now = 0 /\ done = Empty)
     /\ up' = TRUE
     /\ LET e == Epoch(now) IN
-        tasks' = {Task("prop", e, ~w, "fetch"), Task("att", e, ~w, "fetch"), Task("att", e + 1, TRUE, "fetch")}
-                 \cup SyncTasksAtStart(e)
+        tasks' = Spawn({}, <<Task("prop", e, ~w, "fetch"), Task("att", e, ~w, "fetch"), Task("att", e + 1, TRUE, "fetch")>>
+                           \o SyncTasksAtStart(e))
     /\ jobs' = Empty
     /\ seen' = [has |-> FALSE, e |-> 0, prev |-> <<0, 0>>, cur |-> <<0, 0>>]
     /\ latestTick' = -1 /\ tickDue' = FALSE
@@ -172,13 +199,20 @@ Crash ==
     /\ up' = FALSE /\ jobs' = Empty /\ tasks' = {} /\ tickDue' = FALSE
     /\ UNCHANGED <<cfg, oracle, now, depVer, done, seen, latestTick, startedAt, fetched, shown, nReorg, nSpur, hold>>
 
-\* a timely scheduler: the clock does not pass a job's slot without the job having been started
-Advance ==
+\* Env_TimelyScheduler: the clock does not pass a job's slot without the job having been started
+Timely == up => \A nm \in DOMAIN jobs : ~Due(nm)
+AdvanceStep ==
     /\ now < MaxSlot
-    /\ up => (Settled /\ ~tickDue /\ \A nm \in DOMAIN jobs : ~Due(nm))
+    /\ up => (Settled /\ ~tickDue)
     /\ now' = now + 1
     /\ tickDue' = (up /\ now + 1 = First(Epoch(now + 1)))
     /\ UNCHANGED <<cfg, oracle, depVer, up, jobs, tasks, done, seen, latestTick, startedAt, fetched, shown, nReorg, nCrash, nSpur, hold>>
+\* Env_SyncRootShallow, second half: a reorganisation of the root that fixes the next sync committee is shown
+\* by a head event before the period's first epoch is over (the controller looks at that root only then)
+SyncRootShown ==
+    LET e == Epoch(now) IN
+    (up /\ Epoch(now + 1) # e /\ e % EP = 0 /\ seen.has /\ seen.e = e) => seen.cur = RootOf(e)
+Advance == Timely /\ SyncRootShown /\ AdvanceStep
 
 \* Env_GenesisRootsFixed: the roots of boundaries 0 and below are the genesis root.
 \* A reorg reaches at most the previous epoch's boundary.
@@ -199,19 +233,20 @@ Reorg(b) ==
 (* epochs before a period starts, and the prepare-for-epoch job for the next epoch's attesters. *)
 SyncTasksAtTick(e) ==
     (IF e = cfg.fork
-     THEN {Task("sync", Period(e), FALSE, "fetch")}
-          \cup (IF (Period(e) + 1) * EP - e <= Prep THEN {Task("sync", Period(e) + 1, FALSE, "fetch")} ELSE {})
-     ELSE {})
-    \cup (IF e >= cfg.fork /\ e % EP = EP - Prep THEN {Task("sync", Period(e) + 1, FALSE, "fetch")} ELSE {})
+     THEN <<Task("sync", Period(e), FALSE, "fetch")>>
+          \o (IF (Period(e) + 1) * EP - e <= Prep THEN <<Task("sync", Period(e) + 1, FALSE, "fetch")>> ELSE <<>>)
+     ELSE <<>>)
+    \o (IF e >= cfg.fork /\ e % EP = EP - Prep THEN <<Task("sync", Period(e) + 1, FALSE, "fetch")>> ELSE <<>>)
 
 TickBody(e) ==
     /\ latestTick' = e
-    /\ tasks' = tasks \cup {Task("prop", e, FALSE, "fetch")} \cup SyncTasksAtTick(e)
+    /\ tasks' = Spawn(tasks, <<Task("prop", e, FALSE, "fetch")>> \o SyncTasksAtTick(e))
     /\ jobs' = IF <<"prepepoch", e + 1>> \in DOMAIN jobs THEN jobs
                ELSE Put(jobs, <<"prepepoch", e + 1>>, [time |-> PrepTime(e + 1), vals |-> {}, ver |-> 0])
 
 EpochTick ==
     /\ up /\ Settled
+    /\ "acct" \notin hold      \* the ticker obtains the accounts itself: explored with a prompt accounts provider only
     /\ \/ tickDue /\ nSpur' = nSpur
        \/ ~tickDue /\ latestTick = Epoch(now) /\ nSpur < 1 /\ nSpur' = nSpur + 1     \* spurious second run
     /\ tickDue' = FALSE
@@ -222,16 +257,21 @@ EpochTick ==
 
 -----------------------------------------------------------------------------
 (* schedule{Attestations,Proposals,SyncCommitteeMessages}: fetch, filter, one ScheduleJob each. *)
+Others == <<cfg, oracle, now, depVer, up, seen, latestTick, tickDue, startedAt, shown, nReorg, nCrash, nSpur, hold>>
+Swap(t, S) == tasks' = (tasks \ {t}) \cup S
+
 Fetch(t) ==
     /\ t \in tasks /\ t.st = "fetch"
     /\ LET ver == KeyVer(t.k, t.key)
            reply == CASE t.k = "att" -> Merge(t.key, AttReply(t.key))
                       [] t.k = "prop" -> {[slot |-> r.slot, vals |-> {r.v}] : r \in {x \in PropReply(t.key) : InEpoch(t.key, x.slot)}}
                       [] t.k = "sync" -> IF SyncReply(t.key) = {} THEN {} ELSE {[slot |-> -1, vals |-> SyncReply(t.key)]}
-           nt == [t EXCEPT !.st = IF t.k \in hold THEN "held" ELSE "filter", !.ver = ver, !.duties = reply]
-       IN /\ tasks' = IF t.k \in hold THEN AddHeld(tasks \ {t}, nt) ELSE (tasks \ {t}) \cup {nt}
+       IN /\ Swap(t, {[t EXCEPT !.st = IF t.k \in hold THEN "held" ELSE "filter", !.ver = ver, !.duties = reply]})
           /\ fetched' = Put(fetched, <<t.k, t.key>>, ver)
-    /\ UNCHANGED <<cfg, oracle, now, depVer, up, jobs, done, seen, latestTick, tickDue, startedAt, shown, nReorg, nCrash, nSpur, hold>>
+    /\ UNCHANGED <<jobs, done>> /\ UNCHANGED Others
+
+\* the job a duty's goroutine asks the scheduler for first
+FirstJob(k) == CASE k = "att" -> "att" [] k = "prop" -> (IF PropDelay > 0 THEN "early" ELSE "prop") [] k = "sync" -> "syncprep"
 
 Filter(t) ==
     /\ t \in tasks /\ t.st = "filter"
@@ -239,59 +279,147 @@ Filter(t) ==
                    THEN IF t.duties = {} THEN {}
                         ELSE {[slot |-> s, vals |-> (CHOOSE d \in t.duties : TRUE).vals] : s \in SyncWindow(t.key, t.nc)}
                    ELSE {d \in t.duties : Survives(d.slot, t.nc)}
-       IN tasks' = (tasks \ {t}) \cup (IF kept = {} THEN {} ELSE {[t EXCEPT !.st = "sched", !.duties = kept]})
-    /\ UNCHANGED <<cfg, oracle, now, depVer, up, jobs, done, seen, latestTick, tickDue, startedAt, fetched, shown, nReorg, nCrash, nSpur, hold>>
+           calls == {[slot |-> d.slot, vals |-> d.vals, jk |-> FirstJob(t.k), blk |-> FALSE] : d \in kept}
+       IN Swap(t, IF kept = {} THEN {} ELSE {[t EXCEPT !.st = "sched", !.duties = calls]})
+    /\ UNCHANGED <<jobs, done, fetched>> /\ UNCHANGED Others
 
 \* a name is claimed once: ScheduleJob on an existing name fails and changes nothing
 AddJob(js, k, n, vals, ver) ==
     IF <<k, n>> \in DOMAIN js THEN js ELSE Put(js, <<k, n>>, [time |-> JobTime(k, n), vals |-> vals, ver |-> ver])
 
-JobsFor(js, t, d) ==
-    CASE t.k = "att" -> AddJob(js, "att", d.slot, d.vals, t.ver)
-      [] t.k = "prop" -> AddJob(IF PropDelay > 0 THEN AddJob(js, "early", d.slot, d.vals, t.ver) ELSE js,
-                                "prop", d.slot, d.vals, t.ver)
-      [] t.k = "sync" -> AddJob(js, "syncprep", d.slot, d.vals, t.ver)
-
+\* one ScheduleJob call of a duty's goroutine (a proposer duty asks for the early job, then for the proposal)
 SchedOne(t, d) ==
     /\ t \in tasks /\ t.st = "sched" /\ d \in t.duties
-    /\ jobs' = JobsFor(jobs, t, d)
-    /\ tasks' = (tasks \ {t}) \cup (IF t.duties = {d} THEN {} ELSE {[t EXCEPT !.duties = @ \ {d}]})
-    /\ UNCHANGED <<cfg, oracle, now, depVer, up, done, seen, latestTick, tickDue, startedAt, fetched, shown, nReorg, nCrash, nSpur, hold>>
+    /\ jobs' = AddJob(jobs, d.jk, d.slot, d.vals, t.ver)
+    /\ LET rest == (t.duties \ {d}) \cup (IF d.jk = "early" THEN {[d EXCEPT !.jk = "prop", !.blk = FALSE]} ELSE {})
+       IN Swap(t, IF rest = {} THEN {} ELSE {[t EXCEPT !.duties = rest]})
+    /\ UNCHANGED <<done, fetched>> /\ UNCHANGED Others
 
 -----------------------------------------------------------------------------
-(* refresh*DutiesFor*: cancel the jobs of the epoch / period, then fetch and schedule again.    *)
-CancelNames(t) ==
-    CASE t.k = "att" -> {<<"att", s>> : s \in First(t.key)..Last(t.key)}
-      [] t.k = "prop" -> {<<"prop", s>> : s \in First(t.key)..Last(t.key)} \cup {<<"early", s>> : s \in First(t.key)..Last(t.key)}
-      [] t.k = "sync" -> UNION {{<<"syncprep", s>>, <<"syncmsg", s>>} : s \in (First(PeriodStart(t.key)) - 1)..SyncHi(t.key)}
+(* refresh*DutiesFor*: cancel the jobs of the epoch / period one by one, obtain the accounts,   *)
+(* then fetch and schedule again.                                                               *)
+CancelSeq(t) ==     \* the names in the order the code asks for them
+    CASE t.k = "att" -> [i \in 1..P |-> <<"att", First(t.key) + i - 1>>]
+      [] t.k = "prop" -> [i \in 1..(2 * P) |-> <<IF i % 2 = 1 THEN "early" ELSE "prop", First(t.key) + (i - 1) \div 2>>]
+      [] t.k = "sync" -> LET lo == First(PeriodStart(t.key)) - 1
+                             n == Max(SyncHi(t.key) - lo + 1, 0)
+                         IN [i \in 1..(2 * n) |-> <<IF i % 2 = 1 THEN "syncprep" ELSE "syncmsg", lo + (i - 1) \div 2>>]
+CancelNames(t) == {CancelSeq(t)[i] : i \in 1..Len(CancelSeq(t))}
 
-Cancel(t) ==
+(* Cancelling and the accounts are behind it: the refresh goes on to fetch and reschedule.      *)
+(* attester: the current slot (clock read now) is rescheduled only if the CancelJob for its job *)
+(* succeeded - a job that had started (timer, fast track) is beyond cancelling and must not be  *)
+(* set up again; proposer: never (Env_HeadImpliesBlock); sync: the current slot may be scheduled *)
+Decide(t) ==
+    [t EXCEPT !.blk = FALSE, !.st = "fetch", !.acd = TRUE, !.pos = Len(CancelSeq(t)) + 1,
+              !.nc = CASE t.k = "att" -> now \notin t.can
+                       [] t.k = "prop" -> TRUE
+                       [] t.k = "sync" -> FALSE]
+\* the cancel loop begins (or, with nothing to cancel, is over)
+BeginCancel(t) ==
+    IF Len(CancelSeq(t)) > 0 THEN [t EXCEPT !.blk = FALSE, !.st = "cancel", !.pos = 1]
+    ELSE IF t.acd THEN Decide(t) ELSE [t EXCEPT !.blk = FALSE, !.st = "accounts", !.pos = 1]
+
+\* attester refresh: JobExists("Prepare for epoch"): the epoch is not prepared yet, nothing to refresh
+DoCheck(t) ==
+    /\ t \in tasks /\ t.st = "check"
+    /\ IF <<"prepepoch", t.key>> \in DOMAIN jobs
+       THEN Swap(t, {})
+       ELSE Swap(t, {BeginCancel(t)}) \/ Swap(t, {[t EXCEPT !.st = "accounts"]})
+    /\ UNCHANGED <<jobs, done, fetched>> /\ UNCHANGED Others
+
+\* proposer refresh: which of the two comes first is left open
+DoBegin(t) ==
+    /\ t \in tasks /\ t.st = "begin"
+    /\ Swap(t, {BeginCancel(t)}) \/ Swap(t, {[t EXCEPT !.st = "accounts"]})
+    /\ UNCHANGED <<jobs, done, fetched>> /\ UNCHANGED Others
+
+\* one CancelJob / CancelJobIfExists
+DoCancel(t) ==
     /\ t \in tasks /\ t.st = "cancel"
-    /\ IF t.k = "att" /\ <<"prepepoch", t.key>> \in DOMAIN jobs
-       THEN /\ tasks' = tasks \ {t}           \* the epoch is not prepared yet: nothing to refresh
-            /\ jobs' = jobs
-       ELSE /\ jobs' = Drop(jobs, CancelNames(t))
-            /\ tasks' = (tasks \ {t}) \cup
-                 {[t EXCEPT !.st = "fetch",
-                            \* attester: the current slot is rescheduled only if its job was still waiting;
-                            \* proposer: never (Env_HeadImpliesBlock); sync: the current slot may be scheduled
-                            !.nc = CASE t.k = "att" -> <<"att", now>> \notin DOMAIN jobs
-                                     [] t.k = "prop" -> TRUE
-                                     [] t.k = "sync" -> FALSE]}
-    /\ UNCHANGED <<cfg, oracle, now, depVer, up, done, seen, latestTick, tickDue, startedAt, fetched, shown, nReorg, nCrash, nSpur, hold>>
+    /\ LET seq == CancelSeq(t)
+           nm == seq[t.pos]
+           hit == nm \in DOMAIN jobs
+           t1 == [t EXCEPT !.blk = FALSE, !.can = IF hit /\ t.k = "att" THEN @ \cup {nm[2]} ELSE @]
+       IN /\ jobs' = IF hit THEN Drop(jobs, {nm}) ELSE jobs
+          /\ Swap(t, {IF t.pos < Len(seq) THEN [t1 EXCEPT !.pos = @ + 1]
+                      ELSE IF t.acd THEN Decide(t1)
+                      ELSE [t1 EXCEPT !.st = "accounts", !.pos = @ + 1]})
+    /\ UNCHANGED <<done, fetched>> /\ UNCHANGED Others
 
-RootOf(b) == <<b, VerOf(b)>>
+\* the validating accounts of the epoch arrive
+DoAccounts(t) ==
+    /\ t \in tasks /\ t.st = "accounts"
+    /\ Swap(t, {IF t.pos = 0 THEN BeginCancel([t EXCEPT !.acd = TRUE]) ELSE Decide(t)})
+    /\ UNCHANGED <<jobs, done, fetched>> /\ UNCHANGED Others
 
-(* HandleHeadEvent for the current slot.  A root differing from the one of the previous event   *)
-(* shows a reorg: attesters of this epoch hang on the previous root; proposers of this epoch,   *)
-(* attesters of the next epoch and (in the first epoch of a period) the next sync committee on  *)
-(* the current root.  After an epoch without events the comparison is not meaningful: the       *)
-(* attester refresh is then optional (harmless).                                                *)
 RunNow(js, dn, nm) ==       \* RunJobIfExists on a duty job: <<jobs', done'>>
     IF nm \in DOMAIN js
     THEN <<Drop(js, {nm}), BagAdd(dn, [k |-> nm[1], n |-> nm[2], vals |-> js[nm].vals])>>
     ELSE <<js, dn>>
 
+(* fastTrackJobs(slot) of a head event: JobExists then RunJobIfExists, for the slot's           *)
+(* attestations and then for its sync committee messages.                                       *)
+FtName(t) == <<IF t.st \in {"ftatt", "ftattrun"} THEN "att" ELSE "syncmsg", t.key>>
+DoFtCheck(t) ==
+    /\ t \in tasks /\ t.st \in {"ftatt", "ftsync"}
+    /\ Swap(t, IF FtName(t) \in DOMAIN jobs THEN {[t EXCEPT !.st = IF t.st = "ftatt" THEN "ftattrun" ELSE "ftsyncrun"]}
+               ELSE IF t.st = "ftatt" THEN {[t EXCEPT !.st = "ftsync"]} ELSE {})
+    /\ UNCHANGED <<jobs, done, fetched>> /\ UNCHANGED Others
+DoFtRun(t) ==
+    /\ t \in tasks /\ t.st \in {"ftattrun", "ftsyncrun"}
+    /\ LET r == RunNow(jobs, done, FtName(t))
+       IN jobs' = r[1] /\ done' = r[2]
+    /\ Swap(t, IF t.st = "ftattrun" THEN {[t EXCEPT !.blk = FALSE, !.st = "ftsync"]} ELSE {})
+    /\ UNCHANGED fetched /\ UNCHANGED Others
+
+(* Delaying interfaces.  The call a task is about to make goes to the accounts provider ("acct": *)
+(* ValidatingAccountsForEpoch, i.e. attester and proposer refreshes) or to the scheduler         *)
+(* ("cancel", "run"; "sched" for the ScheduleJob of a duty goroutine).  While the interface is  *)
+(* delaying, the call waits (Block) until the environment lets it through (Release).            *)
+GateOf(t) == CASE t.st = "accounts" /\ t.k \in {"att", "prop"} -> "acct"
+               [] t.st = "cancel" -> "cancel"
+               [] t.st \in {"ftattrun", "ftsyncrun"} -> "run"
+               [] OTHER -> "none"
+GatedStep(t) == DoCancel(t) \/ DoAccounts(t) \/ DoFtRun(t)
+FreeStep(t) == DoCheck(t) \/ DoBegin(t) \/ DoFtCheck(t) \/ Fetch(t) \/ Filter(t)
+
+Block(t) ==
+    /\ t \in tasks /\ ~t.blk /\ GateOf(t) \in hold
+    /\ Swap(t, {[t EXCEPT !.blk = TRUE]})
+    /\ UNCHANGED <<jobs, done, fetched>> /\ UNCHANGED Others
+BlockSched(t, d) ==
+    /\ t \in tasks /\ t.st = "sched" /\ d \in t.duties /\ ~d.blk /\ "sched" \in hold
+    /\ Swap(t, {[t EXCEPT !.duties = (@ \ {d}) \cup {[d EXCEPT !.blk = TRUE]}]})
+    /\ UNCHANGED <<jobs, done, fetched>> /\ UNCHANGED Others
+
+\* the calls of a task that wait at a delaying interface, as <<interface, epoch / slot, version, job kind>>
+ParkedCalls(t) ==
+    IF t.st = "held" THEN {<<t.k, t.key, t.ver, "">>}
+    ELSE IF t.st = "sched" THEN {<<"sched", d.slot, 0, d.jk>> : d \in {x \in t.duties : x.blk}}
+    ELSE IF ~t.blk THEN {}
+    ELSE CASE GateOf(t) = "acct" -> {<<"acct", t.key, 0, "">>}
+           [] GateOf(t) = "cancel" -> {<<"cancel", CancelSeq(t)[t.pos][2], 0, CancelSeq(t)[t.pos][1]>>}
+           [] GateOf(t) = "run" -> {<<"run", t.key, 0, FtName(t)[1]>>}
+           [] OTHER -> {}
+
+\* no two goroutines at work on the duties of one kind and epoch / period (overlapping refreshes: see the open finding)
+NoOverlap == \A t \in tasks, u \in tasks : (t # u /\ t.k = u.k /\ t.key = u.key) => t.k = "ft"
+
+\* a step that is taken at once (see Internal)
+LocalReady(t) ==
+    /\ ~Parked(t)
+    /\ \/ t.st \in {"begin", "fetch", "filter"}
+       \/ t.st = "accounts" /\ ~t.blk /\ GateOf(t) \notin hold
+       \/ ~t.blk /\ GateOf(t) \in hold
+       \/ t.st = "sched" /\ "sched" \in hold
+
+(* HandleHeadEvent for the current slot.  A root differing from the one of the previous event   *)
+(* shows a reorg: attesters of this epoch hang on the previous root; proposers of this epoch,   *)
+(* attesters of the next epoch and (in the first epoch of a period) the next sync committee on  *)
+(* the current root.  After an epoch without events the comparison is not meaningful: the       *)
+(* attester refresh is then optional (harmless).  The refreshes are goroutines; the handler     *)
+(* itself goes on to fast-track the slot's jobs beside them.                                    *)
 HeadEvent(optional) ==
     /\ up /\ Settled
     /\ ~tickDue            \* Env_TickBeforeHead: the epoch ticker (slot start) runs before the slot's block arrives
@@ -303,34 +431,35 @@ HeadEvent(optional) ==
            skipped == seen.has /\ seen.e + 1 < e
            prevChanged == (same /\ seen.prev # np) \/ (next /\ seen.cur # np) \/ (skipped /\ optional)
            curChanged == same /\ seen.cur # nc
-           refresh == (IF prevChanged THEN {Task("att", e, FALSE, "cancel")} ELSE {})
-                      \cup (IF curChanged
-                            THEN {Task("prop", e, TRUE, "cancel"), Task("att", e + 1, FALSE, "cancel")}
-                                 \cup (IF e % EP = 0 /\ e >= cfg.fork THEN {Task("sync", Period(e) + 1, FALSE, "cancel")} ELSE {})
-                            ELSE {})
-           r1 == IF cfg.ft THEN RunNow(jobs, done, <<"att", now>>) ELSE <<jobs, done>>
-           r2 == IF cfg.ft THEN RunNow(r1[1], r1[2], <<"syncmsg", now>>) ELSE r1
+           refresh == (IF prevChanged THEN <<RefreshTask("att", e)>> ELSE <<>>)
+                      \o (IF curChanged
+                          THEN <<RefreshTask("prop", e), RefreshTask("att", e + 1)>>
+                               \o (IF e % EP = 0 /\ e >= cfg.fork THEN <<RefreshTask("sync", Period(e) + 1)>> ELSE <<>>)
+                          ELSE <<>>)
+           ft == IF cfg.ft THEN <<Task("ft", now, FALSE, "ftatt")>> ELSE <<>>
        IN /\ optional => skipped
           /\ seen' = [has |-> TRUE, e |-> e, prev |-> np, cur |-> nc]
-          /\ tasks' = tasks \cup refresh
-          /\ jobs' = r2[1] /\ done' = r2[2]
+          /\ tasks' = Spawn(tasks, refresh \o ft)
           /\ shown' = LET s1 == IF prevChanged /\ ~optional THEN Put(shown, <<"att", e>>, VerOf(e - 1)) ELSE shown
                           s2 == IF curChanged THEN Put(Put(s1, <<"prop", e>>, VerOf(e)), <<"att", e + 1>>, VerOf(e)) ELSE s1
                       IN s2
-    /\ UNCHANGED <<cfg, oracle, now, depVer, up, latestTick, tickDue, startedAt, fetched, nReorg, nCrash, nSpur, hold>>
+    /\ UNCHANGED <<cfg, oracle, now, depVer, up, jobs, done, latestTick, tickDue, startedAt, fetched, nReorg, nCrash, nSpur, hold>>
 
 -----------------------------------------------------------------------------
-(* The scheduler starts a job at its time (earliest first).                                     *)
-Fire(nm, headUpToDate) ==
-    /\ up /\ Settled /\ ~tickDue
-    /\ nm \in DOMAIN jobs /\ Due(nm) /\ Earliest(nm)
+(* The scheduler starts a job at its time (earliest first) - with Interleave, between any two   *)
+(* steps of the controller's goroutines.                                                        *)
+FireStep(nm, headUpToDate) ==
+    /\ up /\ ~tickDue
+    /\ Settled \/ (Interleave /\ ~\E t \in tasks : LocalReady(t))
+    /\ nm \in DOMAIN jobs /\ Due(nm)
     /\ LET k == nm[1]
            n == nm[2]
            j == jobs[nm]
            rest == Drop(jobs, {nm})
-       IN CASE k = "prepepoch" ->
+       IN CASE k = "prepepoch" ->       \* prepareForEpoch obtains the accounts itself: explored with a prompt provider only
+                 /\ "acct" \notin hold
                  /\ jobs' = rest /\ done' = done
-                 /\ tasks' = tasks \cup {Task("att", n, FALSE, "fetch")}
+                 /\ tasks' = Spawn(tasks, <<Task("att", n, FALSE, "fetch")>>)
             [] k \in {"att", "prop", "syncmsg"} ->
                  /\ jobs' = rest /\ tasks' = tasks
                  /\ done' = BagAdd(done, [k |-> k, n |-> n, vals |-> j.vals])
@@ -343,24 +472,71 @@ Fire(nm, headUpToDate) ==
                     THEN LET r == RunNow(rest, done, <<"prop", n>>) IN jobs' = r[1] /\ done' = r[2]
                     ELSE jobs' = rest /\ done' = done
     /\ (nm[1] # "early" \/ nm[2] = 0) => ~headUpToDate      \* there is no head before slot 0
-    /\ UNCHANGED <<cfg, oracle, now, depVer, up, seen, latestTick, tickDue, startedAt, fetched, shown, nReorg, nCrash, nSpur, hold>>
+    /\ UNCHANGED fetched /\ UNCHANGED Others
+
+\* Env_TimelyScheduler: jobs start earliest first
+Fire(nm, headUpToDate) == nm \in DOMAIN jobs /\ Earliest(nm) /\ FireStep(nm, headUpToDate)
 
 Hold(k, on) ==
-    /\ Gated /\ up /\ Settled
-    /\ k \in {"att", "prop"}
+    /\ up /\ Settled
+    /\ k \in Gates
     /\ on = (k \notin hold)
     /\ hold' = IF on THEN hold \cup {k} ELSE hold \ {k}
     /\ UNCHANGED <<cfg, oracle, now, depVer, up, jobs, tasks, done, seen, latestTick, tickDue, startedAt, fetched, shown, nReorg, nCrash, nSpur>>
 
+\* a delayed duty reply is delivered / a delayed call goes through
 Release(t) ==
     /\ up /\ Settled
-    /\ t \in tasks /\ t.st = "held"
-    /\ tasks' = (tasks \ {t}) \cup {[t EXCEPT !.st = "filter", !.cnt = 1]}
-                 \cup (IF t.cnt > 1 THEN {[t EXCEPT !.cnt = @ - 1]} ELSE {})
-    /\ UNCHANGED <<cfg, oracle, now, depVer, up, jobs, done, seen, latestTick, tickDue, startedAt, fetched, shown, hold, nReorg, nCrash, nSpur>>
+    /\ t \in tasks
+    /\ \/ /\ t.st = "held"
+          /\ Swap(t, {[t EXCEPT !.st = "filter"]})
+          /\ UNCHANGED <<jobs, done, fetched>> /\ UNCHANGED Others
+       \/ t.blk /\ GatedStep(t)
+ReleaseSched(t, d) ==
+    /\ up /\ Settled
+    /\ t \in tasks /\ t.st = "sched" /\ d \in t.duties /\ d.blk
+    /\ SchedOne(t, d)
 
+(* The controller's goroutines take their steps one at a time, in any order - up to two          *)
+(* reductions that lose no reachable job table / executed-duty log and no invariant violation   *)
+(* (every invariant is a conjunction over job names or over executed duties, or speaks of       *)
+(* quiescent states only):                                                                       *)
+(*  - a step that touches neither the job table nor the executed duties and that nothing can    *)
+(*    disable (DoBegin, an undelayed DoAccounts, Fetch, Filter, Block) commutes with every other *)
+(*    step: it is taken at once (lowest task id first);                                          *)
+(*  - tasks that work on disjoint job names (different duty kind or epoch) commute: while no two *)
+(*    a task that shares no name with any other active task runs first (lowest id first); all   *)
+(*    interleavings are explored among tasks that share names (two refreshes / fetches of one   *)
+(*    epoch, the fast track beside an attester or sync committee refresh).  The ScheduleJob     *)
+(*    calls of a task that runs alone (its duties' goroutines, each on its own name) are taken  *)
+(*    lowest slot first.  Job starts by the timer (Fire) are not part of this order: they fall  *)
+(*    between any two steps.                                                                    *)
+FirstDuty(S) == CHOOSE d \in S : \A x \in S : d.slot <= x.slot
+StepsOf(t, alone) ==
+    \/ FreeStep(t)
+    \/ ~t.blk /\ GateOf(t) \notin hold /\ GatedStep(t)
+    \/ Block(t)
+    \/ /\ t.st = "sched"
+       /\ LET W == {d \in t.duties : ~d.blk} IN
+          /\ W # {}
+          /\ IF "sched" \in hold THEN BlockSched(t, FirstDuty(W))
+             ELSE IF alone THEN SchedOne(t, FirstDuty(W))
+             ELSE \E d \in W : SchedOne(t, d)
+Active == {t \in tasks : ~Parked(t)}
+\* the job names a task may still touch
+NamesOf(t) ==
+    CASE t.k = "att" -> {<<"att", x>> : x \in First(t.key)..Last(t.key)}
+      [] t.k = "prop" -> {<<"prop", x>> : x \in First(t.key)..Last(t.key)} \cup {<<"early", x>> : x \in First(t.key)..Last(t.key)}
+      [] t.k = "sync" -> UNION {{<<"syncprep", x>>, <<"syncmsg", x>>} : x \in (First(PeriodStart(t.key)) - 1)..SyncHi(t.key)}
+      [] t.k = "ft" -> IF t.st \in {"ftatt", "ftattrun"} THEN {<<"att", t.key>>, <<"syncmsg", t.key>>} ELSE {<<"syncmsg", t.key>>}
+Conflict(t, u) == NamesOf(t) \cap NamesOf(u) # {}
+Lowest(S) == CHOOSE t \in S : \A u \in S : t.id <= u.id
 Internal ==
-    \E t \in tasks : Fetch(t) \/ Filter(t) \/ Cancel(t) \/ \E d \in t.duties : SchedOne(t, d)
+    LET L == {t \in tasks : LocalReady(t)}
+        Alone == {t \in Active : \A u \in Active : u # t => ~Conflict(t, u)} IN
+    IF L # {} THEN StepsOf(Lowest(L), TRUE)
+    ELSE IF Alone # {} THEN StepsOf(Lowest(Alone), TRUE)
+    ELSE \E t \in Active : StepsOf(t, FALSE)
 
 Next ==
     \/ \E w \in BOOLEAN : Start(w)
@@ -369,8 +545,8 @@ Next ==
     \/ \E o \in BOOLEAN : HeadEvent(o)
     \/ \E nm \in DOMAIN jobs, h \in BOOLEAN : Fire(nm, h)
     \/ Internal
-    \/ \E k \in {"att", "prop"}, on \in BOOLEAN : Hold(k, on)
-    \/ \E t \in tasks : Release(t)
+    \/ \E k \in Gates, on \in BOOLEAN : Hold(k, on)
+    \/ \E t \in tasks : Release(t) \/ (t.st = "sched" /\ \E d \in t.duties : ReleaseSched(t, d))
 
 Spec == Init /\ [][Next]_vars
 
@@ -397,6 +573,10 @@ JobCoversExactly ==
 
 \* "no slot is ever proposed or attested for twice" (sync messages likewise)
 NoSlotTwice == \A x \in DOMAIN done, y \in DOMAIN done : (x.k = y.k /\ x.n = y.n) => (x = y /\ done[x] = 1)
+\* "exactly one job per duty slot", over time: a duty that has been carried out has no job (any more, or again)
+OneJobPerDutySlot ==
+    \A nm \in DOMAIN jobs : nm[1] \in {"att", "prop", "syncmsg", "syncprep"} =>
+        ~\E x \in DOMAIN done : x.k = (IF nm[1] = "syncprep" THEN "syncmsg" ELSE nm[1]) /\ x.n = nm[2]
 
 \* "when started or restarted at any point after genesis it schedules only strictly later slots"
 OnlyStrictlyLaterOnStart ==
